@@ -1,0 +1,13 @@
+//go:build !verif
+
+package consensus
+
+import "io"
+
+// verif hook H2 (off): in the default build the simulation seams are inert.
+
+func simPropose(n *RaftNode, cmd *command) (interface{}, error, bool) { return nil, nil, false }
+
+func simFetch(n *RaftNode, lastSeqNum, lastAppliedVersion uint64) (io.ReadCloser, error, bool) {
+	return nil, nil, false
+}
